@@ -46,8 +46,10 @@ Definition wf_tables (t : tables) : Prop :=
   forall c kids, lookup c (chains t) = Some kids ->
     key_of t c <> None /\ forall m, In m kids -> lookup m (chains t) = None /\ key_of t m <> None.
 
-Definition rc_ok (t : tables) (rc : list (N * list N)) : Prop :=
-  forall c kids, lookup c rc = Some kids -> lookup c (chains t) = Some kids.
+(* every cached record is the record the tables give for that name now; a `full` cache holds every collection *)
+Definition rc_ok (t : tables) (rc : rcache_t) : Prop :=
+  (forall c r, lookup c (rc_recs rc) = Some r -> table_rec t c = Some r)
+  /\ (rc_full rc = true -> forall c, exists_b t c = true -> lookup c (rc_recs rc) <> None).
 (* a cached summary is the summary of the collection that has this key NOW, and every cached key is in use *)
 Definition sc_ok (t : tables) (sc : list (N * list N)) : Prop :=
   forall k s, lookup k sc = Some s -> (exists c, key_of t c = Some k) /\ forall c, key_of t c = Some k -> s = true_summary t c.
@@ -68,19 +70,54 @@ Proof.
   - now apply H.
 Qed.
 
-Lemma children_of_spec : forall t cs c, Coherent t cs ->
+Lemma table_rec_some : forall t c r, table_rec t c = Some r -> exists_b t c = true /\ r = lookup c (chains t).
+Proof. intros t c r. unfold table_rec. destruct (exists_b t c); intros H; inversion H; auto. Qed.
+
+Lemma lookup_table_records_gen : forall (ch : list (N * list N)) (l : list (N * N)) c,
+  lookup c (map (fun p => (fst p, lookup (fst p) ch)) l) = match lookup c l with Some _ => Some (lookup c ch) | None => None end.
+Proof.
+  induction l as [|[n k] r IH]; simpl; intros; auto. destruct (n =? c) eqn:E; auto. apply N.eqb_eq in E. subst. reflexivity.
+Qed.
+Lemma lookup_table_records : forall t c, lookup c (table_records t) = table_rec t c.
+Proof. intros. unfold table_records, table_rec, exists_b, key_of. rewrite lookup_table_records_gen. destruct (lookup c (ckeys t)); reflexivity. Qed.
+
+Lemma record_of_spec : forall t cs c, Coherent t cs ->
+  fst (record_of t cs c) = table_rec t c /\ Coherent t (snd (record_of t cs c)).
+Proof.
+  intros t cs c Hc. assert (Hc' := Hc). destruct Hc as [Hr Hs]. unfold record_of.
+  destruct (rcache cs) as [rc|] eqn:R; [|split; [reflexivity | exact Hc']].
+  destruct (Hr rc eq_refl) as [H1 H2]. destruct (lookup c (rc_recs rc)) as [r|] eqn:L; cbn [fst snd].
+  - split; [symmetry; now apply H1 | exact Hc'].
+  - destruct (table_rec t c) as [r|] eqn:T; cbn [fst snd]; [|split; [reflexivity | exact Hc']].
+    split; auto. split; cbn [rcache scache]; auto. intros rc' Hrc. inversion Hrc; subst. split; cbn [rc_recs rc_full].
+    + intros c' r' L'. rewrite lookup_set_key in L'. destruct (c =? c') eqn:E.
+      * apply N.eqb_eq in E. subst. inversion L'; subst. exact T.
+      * now apply H1.
+    + intros Hf c' Hc'0. rewrite lookup_set_key. destruct (c =? c'); [discriminate|]. now apply H2.
+Qed.
+
+Lemma fetch_all_spec : forall t cs, Coherent t cs ->
+  (forall c, lookup c (fst (fetch_all t cs)) = table_rec t c) /\ Coherent t (snd (fetch_all t cs)).
+Proof.
+  intros t cs Hc. assert (Hc' := Hc). destruct Hc as [Hr Hs]. unfold fetch_all. destruct (rcache cs) as [rc|] eqn:R.
+  - destruct (Hr rc eq_refl) as [H1 H2]. destruct (rc_full rc) eqn:F; cbn [fst snd].
+    + split; [|exact Hc']. intros c. destruct (lookup c (rc_recs rc)) as [r|] eqn:L.
+      * symmetry. now apply H1.
+      * destruct (table_rec t c) as [r|] eqn:T; auto. apply table_rec_some in T. destruct T as [T _]. exfalso. now apply (H2 eq_refl c T).
+    + split; [apply lookup_table_records|]. split; cbn [rcache scache]; auto. intros rc' Hrc. inversion Hrc; subst. split; cbn [rc_recs rc_full].
+      * intros c r L. now rewrite lookup_table_records in L.
+      * intros _ c Hcc. rewrite lookup_table_records. unfold table_rec. rewrite Hcc. discriminate.
+  - cbn [fst snd]. split; [apply lookup_table_records | exact Hc'].
+Qed.
+
+Lemma children_of_spec : forall t cs c, wf_tables t -> Coherent t cs ->
   fst (children_of t cs c) = lookup c (chains t) /\ Coherent t (snd (children_of t cs c)).
 Proof.
-  intros t cs c [Hr Hs]. unfold children_of. destruct (rcache cs) as [rc|] eqn:R; simpl.
-  - destruct (lookup c rc) as [kids|] eqn:L; simpl.
-    + split; [symmetry; now apply (Hr rc eq_refl)|]. split; auto. rewrite R. auto.
-    + destruct (lookup c (chains t)) as [kids|] eqn:L2; simpl.
-      * split; auto. split; simpl; auto. intros rc' Hrc. inversion Hrc; subst. intros c' k' L'.
-        rewrite lookup_set_key in L'. destruct (c =? c') eqn:E.
-        { apply N.eqb_eq in E. subst. inversion L'; subst. exact L2. }
-        { now apply (Hr rc eq_refl). }
-      * split; auto. split; auto. rewrite R. auto.
-  - split; auto. split; auto. rewrite R. auto.
+  intros t cs c [_ Hw] Hc. unfold children_of. destruct (record_of_spec t cs c Hc) as [R1 R2].
+  destruct (record_of t cs c) as [r cs1]. simpl in *. split; auto. subst r. unfold table_rec, exists_b.
+  destruct (key_of t c) eqn:K.
+  - destruct (lookup c (chains t)); reflexivity.
+  - destruct (lookup c (chains t)) eqn:L; auto. destruct (Hw c l L) as [H _]. congruence.
 Qed.
 
 Lemma sc_ok_fold : forall t ms sc, kinj t -> sc_ok t sc -> (forall m, In m ms -> lookup m (chains t) = None) ->
@@ -97,7 +134,7 @@ Proof.
   destruct (match scache cs with Some sc => lookup k sc | None => None end) as [s|] eqn:Hit.
   - simpl. split; auto. destruct (scache cs) as [sc|] eqn:S; [|discriminate]. destruct Hc as [_ Hs].
     destruct (Hs sc S k s Hit) as [_ H2]. now apply H2.
-  - destruct (children_of_spec t cs c Hc) as [K1 K2]. destruct (children_of t cs c) as [kids cs1]. simpl in K1, K2. subst kids.
+  - destruct (children_of_spec t cs c (conj Hi Hw) Hc) as [K1 K2]. destruct (children_of t cs c) as [kids cs1]. simpl in K1, K2. subst kids.
     destruct K2 as [Hr1 Hs1]. simpl. split.
     + unfold true_summary. destruct (lookup c (chains t)); auto.
     + split; simpl; auto. intros sc' Hsc'. destruct (scache cs1) as [sc|] eqn:S; [|discriminate]. inversion Hsc'; subst. clear Hsc'.
@@ -119,7 +156,7 @@ Lemma query_datasets_spec : forall t ty c cs, wf_tables t -> Coherent t cs ->
   fst (query_datasets t cs ty c) = query_ans t ty c /\ Coherent t (snd (query_datasets t cs ty c)).
 Proof.
   intros. unfold query_datasets, query_ans. destruct (key_of t c); [|split; auto].
-  destruct (children_of_spec t cs c H0) as [K1 K2].
+  destruct (children_of_spec t cs c H H0) as [K1 K2].
   destruct (children_of t cs c) as [kids cs1]. simpl in K1, K2. subst. apply query_members_spec; auto.
 Qed.
 
@@ -196,8 +233,8 @@ Proof.
           - destruct (c =? m); [discriminate|exact M2]. }
       * split; [rewrite N.eqb_refl; discriminate | intros m []].
   - (* RemoveColl *)
-    destruct (negb (exists_b t c) || is_kid t c) eqn:E; cbn [fst snd]; [split; assumption|].
-    apply orb_false_iff in E. destruct E as [_ Ek]. split.
+    destruct (negb (exists_b t c)) eqn:E0; cbn [fst snd]; [split; assumption|].
+    destruct (is_kid t c) eqn:Ek; cbn [fst snd]; [split; assumption|]. split.
     + intros a b k Ha Hb. unfold key_of in *. cbn [ckeys] in *. rewrite lookup_del_key in *.
       destruct (c =? a); [discriminate|]. destruct (c =? b); [discriminate|]. now apply (Hi a b k).
     + intros a kids L. unfold key_of. cbn [ckeys chains] in *. rewrite lookup_del_key in *. destruct (c =? a) eqn:Ea; [discriminate|].
@@ -221,6 +258,8 @@ Proof.
     destruct (exists_b t run && negb (is_chain_b t run)); cbn [fst snd]; split; assumption.
   - destruct (fetch_summary t cs c). simpl. split; assumption.
   - destruct (query_datasets t cs ty c). simpl. split; assumption.
+  - destruct (fetch_all t cs). simpl. split; assumption.
+  - destruct (fetch_all t cs) as [recs cs1]. destruct (query_members t cs1 ty _). simpl. split; assumption.
 Qed.
 
 (* the tables after a step do not depend on the caches, the fixes or the use of contexts *)
@@ -229,36 +268,47 @@ Proof.
   intros. destruct o; cbn [rstep fst snd]; auto.
   - destruct uc, uc'; auto.
   - destruct (exists_b t c); auto.
-  - destruct (negb (exists_b t c) || is_kid t c); auto.
+  - destruct (negb (exists_b t c)); auto. destruct (is_kid t c); auto.
   - destruct (is_chain_b t c && forallb (fun m => exists_b t m && negb (is_chain_b t m)) kids); auto.
   - destruct (exists_b t run && negb (is_chain_b t run)); auto.
   - destruct (fetch_summary t cs c), (fetch_summary t cs' c). auto.
   - destruct (query_datasets t cs ty c), (query_datasets t cs' ty c). auto.
+  - destruct (fetch_all t cs), (fetch_all t cs'). auto.
+  - destruct (fetch_all t cs) as [r1 c1], (fetch_all t cs') as [r2 c2]. destruct (query_members t c1 ty _), (query_members t c2 ty _). auto.
 Qed.
 
 Lemma table_summary_same : forall t t' m, summ t' = summ t -> table_summary t' m = table_summary t m.
 Proof. intros. unfold table_summary. now rewrite H. Qed.
 
+Lemma rc_ok_empty : forall t, rc_ok t (mkRC [] false).
+Proof. intros. split; simpl; intros; discriminate. Qed.
+
+Lemma table_rec_same : forall t t' c, ckeys t' = ckeys t -> chains t' = chains t -> table_rec t' c = table_rec t c.
+Proof. intros. unfold table_rec, exists_b, key_of. now rewrite H, H0. Qed.
+
 Lemma coherent_step : forall uc t cs o, wf_tables t -> Coherent t cs ->
   Coherent (fst (fst (rstep as_coded uc (t, cs) o))) (snd (fst (rstep as_coded uc (t, cs) o))).
 Proof.
-  intros uc t cs o [Hi Hw] [Hr Hs]. destruct o; cbn [rstep fst snd].
-  - destruct uc; simpl; [|split; auto]. split; simpl.
-    + intros rc H. destruct (rcache cs) eqn:R; [now apply Hr|]. inversion H; subst. intros c k L. discriminate.
-    + intros sc H. destruct (scache cs) eqn:S; [now apply Hs|]. inversion H; subst. apply sc_ok_nil.
+  intros uc t cs o Hwf Hc. assert (Hc' := Hc). destruct Hwf as [Hi Hw]. destruct Hc as [Hr Hs]. destruct o; cbn [rstep fst snd].
+  - destruct uc; cbn [fst snd]; [|exact Hc']. split; cbn [rcache scache].
+    + intros rc H. destruct (rcache cs) eqn:R; [apply Hr; exact H|]. inversion H; subst. apply rc_ok_empty.
+    + intros sc H. destruct (scache cs) eqn:S; [apply Hs; exact H|]. inversion H; subst. apply sc_ok_nil.
   - apply coherent_none.
   - (* Register: the new key is larger than every key in use, hence not cached *)
-    destruct (exists_b t c) eqn:E; cbn [fst snd]; [split; auto|]. remember (1 + max_key t) as nk eqn:Hnk.
+    destruct (exists_b t c) eqn:E; cbn [fst snd]; [exact (proj2 (record_of_spec t cs c Hc'))|]. remember (1 + max_key t) as nk eqn:Hnk.
     assert (Kc : key_of t c = None) by (unfold exists_b in E; destruct (key_of t c); congruence).
     assert (Cc : lookup c (chains t) = None).
     { destruct (lookup c (chains t)) eqn:L; auto. destruct (Hw c l L) as [H1 _]. congruence. }
-    assert (Nk : forall p kids, lookup p (chains t) = Some kids -> ~ In c kids).
-    { intros p kids L Hin. destruct (Hw p kids L) as [_ H2]. destruct (H2 c Hin). congruence. }
     split; cbn [rcache scache].
-    + intros rc' H. destruct (rcache cs) as [rc|] eqn:R; [|discriminate]. inversion H; subst. intros a ks L. cbn [chains].
-      destruct chain.
-      * rewrite lookup_set_key in *. destruct (c =? a); auto. now apply (Hr rc eq_refl).
-      * now apply (Hr rc eq_refl).
+    + intros rc' H. destruct (rcache cs) as [rc|] eqn:R; [|discriminate]. inversion H; subst rc'. destruct (Hr rc eq_refl) as [H1 H2].
+      split; cbn [rc_recs rc_full].
+      * intros a r L. rewrite lookup_set_key in L. destruct (c =? a) eqn:Ea.
+        { apply N.eqb_eq in Ea. subst a. inversion L; subst r. unfold table_rec, exists_b, key_of. cbn [ckeys chains lookup].
+          rewrite N.eqb_refl. destruct chain; [rewrite lookup_set_key, N.eqb_refl; reflexivity | rewrite Cc; reflexivity]. }
+        { rewrite <- (H1 a r L). unfold table_rec, exists_b, key_of. cbn [ckeys chains lookup]. rewrite Ea.
+          destruct chain; [rewrite lookup_set_key, Ea|]; reflexivity. }
+      * intros Hf a Ha. rewrite lookup_set_key. destruct (c =? a) eqn:Ea; [discriminate|]. apply H2; auto.
+        unfold exists_b, key_of in *. cbn [ckeys lookup] in Ha. rewrite Ea in Ha. exact Ha.
     + intros sc H. specialize (Hs sc H). intros k s L. destruct (Hs k s L) as [[c0 Hc0] H2]. split.
       * exists c0. unfold key_of in *. cbn [ckeys lookup]. destruct (c =? c0) eqn:E0; auto. apply N.eqb_eq in E0. subst. congruence.
       * intros a Ha. unfold key_of in Ha. cbn [ckeys lookup] in Ha. destruct (c =? a) eqn:Ea.
@@ -267,45 +317,78 @@ Proof.
           assert (La : lookup a (if chain then set_key c [] (chains t) else chains t) = lookup a (chains t)).
           { destruct chain; auto. rewrite lookup_set_key. now rewrite Ea. }
           rewrite La. reflexivity. }
-  - (* RemoveColl: the summary cache is dropped *)
-    destruct (negb (exists_b t c) || is_kid t c) eqn:E; cbn [fst snd]; [split; auto|]. split; cbn [rcache scache].
-    + intros rc' H. destruct (rcache cs) as [rc|] eqn:R; [|discriminate]. inversion H; subst. intros a ks L. cbn [chains].
-      rewrite lookup_del_key in *. destruct (c =? a); [discriminate|]. now apply (Hr rc eq_refl).
-    + intros sc' H. destruct (scache cs); [|discriminate]. cbn [rm_fix as_coded] in H. inversion H; subst. apply sc_ok_nil.
+  - (* RemoveColl: database delete, then the cached record is discarded and the summary cache dropped;
+       a refused removal leaves the caches as the lookup by name left them *)
+    assert (C1 := proj2 (record_of_spec t cs c Hc')). remember (snd (record_of t cs c)) as cs1.
+    destruct (negb (exists_b t c)) eqn:E0; cbn [fst snd]; [exact C1|].
+    destruct (is_kid t c) eqn:Ek; cbn [fst snd rm_order as_coded]; [exact C1|].
+    destruct C1 as [Hr1 Hs1]. split; cbn [rcache scache].
+    + intros rc' H. destruct (rcache cs1) as [rc|] eqn:R; [|discriminate]. inversion H; subst rc'. destruct (Hr1 rc eq_refl) as [H1 H2].
+      split; cbn [rc_recs rc_full].
+      * intros a r L. rewrite lookup_del_key in L. destruct (c =? a) eqn:Ea; [discriminate|]. rewrite <- (H1 a r L).
+        unfold table_rec, exists_b, key_of. cbn [ckeys chains]. rewrite !lookup_del_key, Ea. reflexivity.
+      * intros Hf a Ha. rewrite lookup_del_key. unfold exists_b, key_of in Ha. cbn [ckeys] in Ha. rewrite lookup_del_key in Ha.
+        destruct (c =? a) eqn:Ea; [discriminate Ha|]. apply H2; auto.
+    + intros sc' H. destruct (scache cs1); [|discriminate]. cbn [rm_fix as_coded] in H. inversion H; subst. apply sc_ok_nil.
   - (* SetChain *)
-    destruct (is_chain_b t c && forallb (fun m => exists_b t m && negb (is_chain_b t m)) kids) eqn:E; cbn [fst snd]; [|split; auto].
+    destruct (is_chain_b t c && forallb (fun m => exists_b t m && negb (is_chain_b t m)) kids) eqn:E; cbn [fst snd]; [|exact Hc'].
+    apply andb_true_iff in E. destruct E as [Ec _].
+    assert (Xc : exists_b t c = true).
+    { unfold is_chain_b in Ec. destruct (lookup c (chains t)) eqn:L; [|discriminate]. apply exists_b_true. exact (proj1 (Hw c l L)). }
     split; cbn [rcache scache].
-    + intros rc' H. destruct (rcache cs) as [rc|] eqn:R; [|discriminate]. inversion H; subst. intros c' k' L. cbn [chains].
-      rewrite lookup_set_key in *. destruct (c =? c'); auto. now apply (Hr rc eq_refl).
+    + intros rc' H. destruct (rcache cs) as [rc|] eqn:R; [|discriminate]. inversion H; subst rc'. destruct (Hr rc eq_refl) as [H1 H2].
+      split; cbn [rc_recs rc_full].
+      * intros a r L. rewrite lookup_set_key in L. unfold table_rec, exists_b, key_of. cbn [ckeys chains]. rewrite lookup_set_key.
+        destruct (c =? a) eqn:Ea.
+        { apply N.eqb_eq in Ea. subst a. inversion L; subst r. unfold exists_b, key_of in Xc. rewrite Xc. reflexivity. }
+        { exact (H1 a r L). }
+      * intros Hf a Ha. rewrite lookup_set_key. destruct (c =? a); [discriminate|]. apply H2; auto.
     + intros sc' H. destruct (scache cs); [|discriminate]. cbn [chain_fix as_coded] in H. inversion H; subst. apply sc_ok_nil.
   - (* Put *)
-    destruct (exists_b t run && negb (is_chain_b t run)); cbn [fst snd]; [|split; auto]. split; cbn [rcache scache].
-    + intros rc H. now apply Hr.
-    + intros sc' H. destruct (scache cs); [|discriminate]. inversion H; subst. apply sc_ok_nil.
-  - destruct (fetch_summary_spec t cs c (conj Hi Hw) (conj Hr Hs)) as [_ F]. destruct (fetch_summary t cs c). exact F.
-  - destruct (query_datasets_spec t ty c cs (conj Hi Hw) (conj Hr Hs)) as [_ F]. destruct (query_datasets t cs ty c). exact F.
+    assert (C1 := proj2 (record_of_spec t cs run Hc')). remember (snd (record_of t cs run)) as cs1.
+    destruct (exists_b t run && negb (is_chain_b t run)); cbn [fst snd]; [|exact C1]. destruct C1 as [Hr1 Hs1]. split; cbn [rcache scache].
+    + intros rc H. destruct (Hr1 rc H) as [H1 H2]. split.
+      * intros a r L. exact (H1 a r L).
+      * intros Hf a Ha. apply H2; auto.
+    + intros sc' H. destruct (scache cs1); [|discriminate]. inversion H; subst. apply sc_ok_nil.
+  - destruct (fetch_summary_spec t cs c (conj Hi Hw) Hc') as [_ F]. destruct (fetch_summary t cs c). exact F.
+  - destruct (query_datasets_spec t ty c cs (conj Hi Hw) Hc') as [_ F]. destruct (query_datasets t cs ty c). exact F.
+  - destruct (fetch_all_spec t cs Hc') as [_ F]. destruct (fetch_all t cs). exact F.
+  - destruct (fetch_all_spec t cs Hc') as [_ F]. destruct (fetch_all t cs) as [recs cs1]. cbn [fst snd] in F.
+    match goal with |- context [query_members t cs1 ty ?ms] =>
+      destruct (query_members_spec t ty ms cs1 (conj Hi Hw) F) as [_ Q]; destruct (query_members t cs1 ty ms) end. exact Q.
+  - exact Hc'.
 Qed.
 
 (* the run without caching contexts never has caches *)
+Lemma record_uncached : forall t c, record_of t no_caches c = (table_rec t c, no_caches).
+Proof. reflexivity. Qed.
+Lemma fetch_all_uncached : forall t, fetch_all t no_caches = (table_records t, no_caches).
+Proof. reflexivity. Qed.
 Lemma fetch_uncached : forall t c, snd (fetch_summary t no_caches c) = no_caches.
-Proof. intros. unfold fetch_summary, children_of. simpl. destruct (key_of t c); [|reflexivity]. destruct (lookup c (chains t)); reflexivity. Qed.
+Proof.
+  intros. unfold fetch_summary, children_of. rewrite record_uncached. cbn [scache no_caches rcache]. destruct (key_of t c); [|reflexivity].
+  destruct (table_rec t c) as [[l|]|]; reflexivity.
+Qed.
 Lemma qm_uncached : forall t ty ms, snd (query_members t no_caches ty ms) = no_caches.
 Proof.
   induction ms; cbn [query_members]; auto. assert (F := fetch_uncached t a). destruct (fetch_summary t no_caches a) as [s cs1].
   simpl in F. subst. destruct (query_members t no_caches ty ms). simpl in *. auto.
 Qed.
 Lemma qd_uncached : forall t ty c, snd (query_datasets t no_caches ty c) = no_caches.
-Proof. intros. unfold query_datasets, children_of. simpl. destruct (key_of t c); [|reflexivity]. apply qm_uncached. Qed.
+Proof. intros. unfold query_datasets, children_of. rewrite record_uncached. destruct (key_of t c); [|reflexivity]. apply qm_uncached. Qed.
 
 Lemma uncached_step : forall fx t o, snd (fst (rstep fx false (t, no_caches) o)) = no_caches.
 Proof.
   intros. destruct o; cbn [rstep fst snd]; auto.
   - destruct (exists_b t c); reflexivity.
-  - destruct (negb (exists_b t c) || is_kid t c); reflexivity.
+  - rewrite record_uncached. cbn [snd]. destruct (negb (exists_b t c)); [reflexivity|]. destruct (is_kid t c); [destruct (rm_order fx)|]; reflexivity.
   - destruct (is_chain_b t c && forallb (fun m => exists_b t m && negb (is_chain_b t m)) kids); reflexivity.
-  - destruct (exists_b t run && negb (is_chain_b t run)); reflexivity.
+  - rewrite record_uncached. cbn [snd]. destruct (exists_b t run && negb (is_chain_b t run)); reflexivity.
   - assert (F := fetch_uncached t c). destruct (fetch_summary t no_caches c). simpl in *. exact F.
   - assert (F := qd_uncached t ty c). destruct (query_datasets t no_caches ty c). simpl in *. exact F.
+  - rewrite fetch_all_uncached. match goal with |- context [query_members t no_caches ty ?ms] =>
+    assert (F := qm_uncached t ty ms); destruct (query_members t no_caches ty ms) end. simpl in *. exact F.
 Qed.
 
 Lemma answers_step : forall fx t cs o, wf_tables t -> Coherent t cs ->
@@ -313,11 +396,23 @@ Lemma answers_step : forall fx t cs o, wf_tables t -> Coherent t cs ->
 Proof.
   intros fx t cs o Hw Hc. destruct o; cbn [rstep fst snd]; try reflexivity.
   - destruct (exists_b t c); reflexivity.
-  - destruct (negb (exists_b t c) || is_kid t c); reflexivity.
+  - destruct (negb (exists_b t c)); [reflexivity|]. destruct (is_kid t c); reflexivity.
   - destruct (is_chain_b t c && forallb (fun m => exists_b t m && negb (is_chain_b t m)) kids); reflexivity.
   - destruct (exists_b t run && negb (is_chain_b t run)); reflexivity.
   - destruct (cache_transparent_p t cs 0 c Hw Hc) as [_ F]. destruct (fetch_summary t cs c), (fetch_summary t no_caches c). simpl in *. exact F.
   - destruct (cache_transparent_p t cs ty c Hw Hc) as [F _]. destruct (query_datasets t cs ty c), (query_datasets t no_caches ty c). simpl in *. exact F.
+  - (* pattern lookups: a coherent cache, full or not, lists exactly the collections of the tables *)
+    destruct (fetch_all_spec t cs Hc) as [F _]. rewrite fetch_all_uncached. destruct (fetch_all t cs) as [recs cs1]. cbn [fst snd] in *.
+    apply filter_ext. intros c. rewrite F, lookup_table_records. reflexivity.
+  - destruct (fetch_all_spec t cs Hc) as [F C]. rewrite fetch_all_uncached. destruct (fetch_all t cs) as [recs cs1]. cbn [fst snd] in *.
+    assert (E : filter (fun c => match lookup c recs with Some None => true | _ => false end) among
+              = filter (fun c => match lookup c (table_records t) with Some None => true | _ => false end) among).
+    { apply filter_ext. intros c. rewrite F, lookup_table_records. reflexivity. }
+    rewrite E. match goal with |- context [query_members t cs1 ty ?ms] =>
+      assert (Q1 := proj1 (query_members_spec t ty ms cs1 Hw C));
+      assert (Q2 := proj1 (query_members_spec t ty ms no_caches Hw (coherent_none t)));
+      destruct (query_members t cs1 ty ms), (query_members t no_caches ty ms) end.
+    cbn [fst snd] in *. congruence.
 Qed.
 
 (* every history: registrations, removals, chain edits, puts, queries, contexts in any order; no side condition on
@@ -347,4 +442,22 @@ Proof. split; [intros c c' k H; discriminate | intros c kids L; discriminate]. Q
 Lemma datasets_in_put : forall t id ty run ck ch sm, In id (datasets_in (mkTables ck ch sm (data t ++ [(id, ty, run)])) ty run).
 Proof.
   intros. unfold datasets_in. simpl. rewrite filter_app, map_app. apply in_or_app. right. simpl. rewrite !N.eqb_refl. simpl. auto.
+Qed.
+
+(* a refused request changes no table *)
+Lemma refused_tables_same : forall fx uc t cs o,
+  snd (rstep fx uc (t, cs) o) = err_ans -> (forall c, o <> QSummary c) -> (forall ty c, o <> QData ty c) ->
+  (forall a, o <> QColls a) -> (forall ty a, o <> QDataGlob ty a) ->
+  fst (fst (rstep fx uc (t, cs) o)) = t.
+Proof.
+  intros fx uc t cs o. destruct o; cbn [rstep fst snd]; intros H N1 N2 N3 N4; try reflexivity.
+  - destruct uc; reflexivity.
+  - destruct (exists_b t c); [reflexivity | discriminate H].
+  - destruct (negb (exists_b t c)); [reflexivity|]. destruct (is_kid t c); [reflexivity | discriminate H].
+  - destruct (is_chain_b t c && forallb (fun m => exists_b t m && negb (is_chain_b t m)) kids); [discriminate H | reflexivity].
+  - destruct (exists_b t run && negb (is_chain_b t run)); [discriminate H | reflexivity].
+  - exfalso. now apply (N1 c).
+  - exfalso. now apply (N2 ty c).
+  - exfalso. now apply (N3 among).
+  - exfalso. now apply (N4 ty among).
 Qed.
